@@ -18,7 +18,7 @@ CAP_FREE = "len(self._borrowers) < self._total_tokens"
 
 def limiter_methods(ctx):
     return {k: ctx.fn(f"CapacityLimiter.{k}", A) for k in
-            ("total_tokens@setter", "_notify_next_waiter", "acquire_on_behalf_of_nowait", "acquire_on_behalf_of",
+            ("total_tokens@setter", "acquire_on_behalf_of_nowait", "acquire_on_behalf_of",
              "release_on_behalf_of", "release", "__aexit__", "__aenter__", "acquire", "acquire_nowait", "borrowed_tokens",
              "available_tokens", "total_tokens", "statistics")}
 
@@ -55,7 +55,7 @@ def grants_capacity_guarded(ctx, rule, L=None):
 def check(ctx):
     # ================================================================== CapacityLimiter
     L = {k: ctx.fn(f"CapacityLimiter.{k}", A) for k in
-         ("total_tokens@setter", "_notify_next_waiter", "acquire_on_behalf_of_nowait", "acquire_on_behalf_of",
+         ("total_tokens@setter", "acquire_on_behalf_of_nowait", "acquire_on_behalf_of",
           "release_on_behalf_of", "release", "__aexit__", "__aenter__", "acquire", "acquire_nowait", "borrowed_tokens",
           "available_tokens", "total_tokens", "statistics")}
 
@@ -119,6 +119,10 @@ def check(ctx):
                 return (disc, True, intr)
             return st
 
+        def nothing_to_grant(facts):
+            # passing the token on = granting it to the head waiter; nothing to do if nobody queues or no token is free
+            return ("self._wait_queue", False) in facts or (F(CAP_FREE)[0], not F(CAP_FREE)[1]) in facts
+
         evname = u(waits[0]["E"]) if waits else "event"
         setk = F(f"{evname}.is_set()")
 
@@ -126,7 +130,7 @@ def check(ctx):
             disc, noti, intr = st
             if intr and kind == "return":
                 return "interrupted wait does not re-raise"
-            if intr and setk in facts and not (disc and noti):
+            if intr and setk in facts and not (disc and (noti or nothing_to_grant(facts))):
                 return "a waiter that was already granted a token leaves without returning it and notifying the next waiter"
             if intr and (setk[0], False) in facts and (disc or noti):
                 return "a waiter that was never granted a token gives one back"
@@ -135,7 +139,7 @@ def check(ctx):
             return None
 
         ctx.paths("R10-d", f, [("wait", "await $E.wait()"), ("discard", f"self._borrowers.discard({bt})"),
-                               ("notify", "self._notify_next_waiter()")], step, (False, False, False), at_exit,
+                               ("notify", "self._borrowers.add($X)")], step, (False, False, False), at_exit,
                   instance="granted-then-cancelled waiter", native=True)
 
     # ---- R10-f release
@@ -155,15 +159,16 @@ def check(ctx):
 
     def at_exit(kind, st, facts):
         rem, noti = st
-        if kind == "return" and (rem, noti) != (1, 1):
-            return f"release returns after {rem} removal(s) and {noti} notification(s)"
+        nothing = ("self._wait_queue", False) in facts or (F(CAP_FREE)[0], not F(CAP_FREE)[1]) in facts
+        if kind == "return" and not (rem == 1 and (noti == 1 or (noti == 0 and nothing))):
+            return f"release returns after {rem} removal(s) and {noti} grant(s) to the next waiter (required: one removal, then the freed token goes to the head waiter if one queues)"
         if kind != "return" and (rem or noti):
             return "release raises after having returned the token"
         if kind not in ("return", "raise:RuntimeError"):
             return f"release by a non-borrower surfaces as {kind}, not RuntimeError"
         return None
 
-    ctx.paths("R10-f", f, [("remove", "self._borrowers.remove($B)"), ("notify", "self._notify_next_waiter()")], step, (0, 0),
+    ctx.paths("R10-f", f, [("remove", "self._borrowers.remove($B)"), ("notify", "self._borrowers.add($X)")], step, (0, 0),
               at_exit, instance="release_on_behalf_of outcome")
     dominates_all_exits(ctx, "R10-f", L["__aexit__"], "self.release()", "CapacityLimiter.__aexit__ releases unconditionally",
                         exits=("return",), count=1)
@@ -189,11 +194,11 @@ def check(ctx):
     writer_table(ctx, "R10-g", "_borrowers", {
         "CapacityLimiter.__init__": {"assign"},
         "CapacityLimiter.total_tokens@setter": {"call:add"},
-        "CapacityLimiter._notify_next_waiter": {"call:add"},
+        # (the hand-over to the next waiter is analysed inlined at its call sites, core.INLINE_ALWAYS; every `add` is capacity-guarded, R10-a)
         "CapacityLimiter.acquire_on_behalf_of_nowait": {"call:add"},
-        "CapacityLimiter.acquire_on_behalf_of": {"call:discard"},
-        "CapacityLimiter.release_on_behalf_of": {"call:remove"},
-    }, floor=6, modules=[A])
+        "CapacityLimiter.acquire_on_behalf_of": {"call:discard", "call:add"},
+        "CapacityLimiter.release_on_behalf_of": {"call:remove", "call:add"},
+    }, floor=5, modules=[A])
     writer_table(ctx, "R10-g", "_total_tokens", {
         "CapacityLimiter.__init__": {"assign"},
         "CapacityLimiter.total_tokens@setter": {"assign"},
